@@ -52,15 +52,21 @@ def stripWs (cs : List Char) : List Char :=
 decimal digits with single underscores between digits. -/
 def pyInt (s : List Char) : Option Int :=
   match stripWs s with
-  | '-' :: ds => if validDigits ds then some (-(digitsVal ds : Int)) else none
-  | '+' :: ds => if validDigits ds then some (digitsVal ds : Int) else none
-  | ds => if validDigits ds then some (digitsVal ds : Int) else none
+  | [] => none
+  | c :: ds =>
+    if c = '-' then (if validDigits ds then some (-(digitsVal ds : Int)) else none)
+    else if c = '+' then (if validDigits ds then some (digitsVal ds : Int) else none)
+    else if validDigits (c :: ds) then some (digitsVal (c :: ds) : Int) else none
+
+def digitChar : Nat → Char
+  | 0 => '0' | 1 => '1' | 2 => '2' | 3 => '3' | 4 => '4'
+  | 5 => '5' | 6 => '6' | 7 => '7' | 8 => '8' | _ => '9'
 
 /-- decimal digits of a natural number, most significant first (`str(n)`) -/
 def natDigitsAux : Nat → Nat → List Char → List Char
   | 0, _, acc => acc
   | fuel + 1, n, acc =>
-    let d := Char.ofNat (48 + n % 10)
+    let d := digitChar (n % 10)
     if n < 10 then d :: acc else natDigitsAux fuel (n / 10) (d :: acc)
 
 def natDigits (n : Nat) : List Char := natDigitsAux (n + 1) n []
@@ -111,20 +117,27 @@ def assemble (chain : Option Str) (name idstr : Str) : ParseResult :=
     | some i => .ok { chain := chain, resname := nonEmpty name, resid := some i, icode := none }
     | none => .valueError
 
+/-- second half of `parse_residue_spec`: the part after the chain separator -/
+def parseRes (chain : Option Str) (res : Str) : ParseResult :=
+  match splitLast '#' res with
+  | some (name, idstr) => assemble chain name idstr
+  | none => assemble chain (beforeDigits res) (digitSuffix res)
+
 /-- `parse_residue_spec` -/
 def parseSpec (s : Str) : ParseResult :=
-  let cr : Option Str × Str :=
-    match splitFirst '-' s with
-    | some (c, r) => (some c, r)
-    | none => (none, s)
-  match splitLast '#' cr.2 with
-  | some (name, idstr) => assemble cr.1 name idstr
-  | none => assemble cr.1 (beforeDigits cr.2) (digitSuffix cr.2)
+  match splitFirst '-' s with
+  | some (c, r) => parseRes (some c) r
+  | none => parseRes none s
 
 def endsInDigit (s : Str) : Bool :=
   match s.reverse with
   | [] => false
   | c :: _ => isDigit c
+
+/-- `str(res.get('resid', ''))` -/
+def residText : Option Int → Str
+  | some i => intStr i
+  | none => []
 
 /-- `_format_resname` -/
 def formatSpec (s : Spec) : Str :=
@@ -132,9 +145,7 @@ def formatSpec (s : Spec) : Str :=
   let p1 := if chain.isEmpty then [] else chain ++ ['-']
   let name := s.resname.getD []
   let p2 := if endsInDigit name then ['#'] else []
-  let p3 := match s.resid with
-    | some i => intStr i
-    | none => []
+  let p3 := residText s.resid
   p1 ++ name ++ p2 ++ p3 ++ s.icode.getD []
 
 /-! ### molecules, residues, the matcher -/
